@@ -34,7 +34,7 @@ var scalarVars = []string{"scalarTwo168", "scalarTwo336", "scalarMinusOneBytes"}
 
 func main() {
 	if len(os.Args) < 4 {
-		fmt.Fprintln(os.Stderr, "usage: go2lean kernels|ssa|asm|facts <repo> <outdir>")
+		fmt.Fprintln(os.Stderr, "usage: go2lean kernels|ssa|formulas|asm|facts <repo> <outdir>")
 		os.Exit(2)
 	}
 	repo, out := os.Args[2], os.Args[3]
@@ -64,6 +64,15 @@ func main() {
 		if !bad {
 			writeIfChanged(filepath.Join(out, "Ssa.lean"), s)
 		}
+	case "formulas":
+		// straight-line functions above the kernels, by symbolic execution of their go/ssa form
+		s, ties, f := translateFormulas(repo)
+		for _, m := range f {
+			fmt.Println("UNSUPPORTED", m)
+			bad = true
+		}
+		writeIfChanged(filepath.Join(out, "Formulas.lean"), s)
+		writeIfChanged(filepath.Join(out, "FormulaTies.lean"), ties)
 	case "asm":
 		bad = !runAsm(repo, out)
 	case "facts":
